@@ -29,6 +29,7 @@ func init() {
 		Rules: []Rule{
 			{"R15.1", "header layout constants and encoder/decoder field agreement", ruleHeaderLayout},
 			{"R15.3", "schema limits validated before creation", ruleCreationValidated("schema")},
+			{"R15.5", "header text is copied into the whole slot", ruleHeaderFullSlotCopy},
 			{"R8.1", "no data write can land in the header", ruleSlotIndexPositive},
 		},
 	})
@@ -62,6 +63,7 @@ func init() {
 			{"R17.1", "catalog lock discipline", ruleCatalogLocking},
 			{"R17.2", "structural changes serialised", ruleStructuralChangesSerialised},
 			{"R18.5", "fixed-length slot visibility", ruleFixedSlotSingleWrite},
+			{"R18.6", "lazy header load runs only under its sync.Once", ruleLazyLoadOnce},
 		},
 	})
 	register(&Property{
@@ -118,6 +120,7 @@ func init() {
 		NotCovered:  "delivery completeness and order per replica; whether the blocking send is reachable.",
 		Rules: []Rule{
 			{"R26.1", "the stream map is guarded; published channels are closed safely", ruleStreamMapGuarded},
+			{"R26.4", "the stream map key identifies one stream", ruleStreamKeyLossless},
 		},
 	})
 	register(&Property{
